@@ -1,8 +1,9 @@
 SPECIFICATION Spec
 CONSTANTS
+  Mode = "body"
   Quick = FALSE
   MaxItems = 2
   EmitEvery = 40
-INVARIANTS ImplIsSpec AcceptSafeInv UnknownQuiet NoDupOffer
+INVARIANTS ImplIsSpec AcceptSafeInv UnknownQuiet NoDupOffer DepAgree
 CONSTRAINT Emit
 CHECK_DEADLOCK FALSE
